@@ -167,7 +167,7 @@ def svd_error_bound(n, seed, kind, mag, e, cap, via):
     if c.capbinds:
         return SKIP('cap binds')
     lim = c.e * math.sqrt(max(1, c.d - 1)) * (1 + 1e-6) + 64 * c.d * EPS * c.nrm
-    if c.err > lim:
+    if not c.err <= lim:
         return FAIL(f'error {c.err:.6e} > e sqrt(d-1) = {c.e * math.sqrt(c.d - 1):.6e} (ratio {c.err / (c.e * math.sqrt(c.d - 1)):.3f}, '
                     f'||A|| = {c.nrm:.3e}, ranks {c.rk})')
     full = [1] + [min(int(np.prod(n[:k])), int(np.prod(n[k:]))) for k in range(1, c.d)] + [1]
@@ -206,7 +206,7 @@ def svd_exact_lowrank(n, seed, rho, mag, via):
     want.append(1)
     if c.rk != want:
         return FAIL(f'ranks {c.rk}, TT-ranks of the array {want} (||A|| = {c.nrm:.1e})')
-    if c.err > 1e4 * EPS * c.d * c.nrm:
+    if not c.err <= 1e4 * EPS * c.d * c.nrm:
         return FAIL(f'error {c.err:.3e} is not at rounding level of ||A|| = {c.nrm:.1e}')
     return PASS
 
@@ -239,10 +239,10 @@ def svd_matrix_roundtrip(q, coding, cap):
     T = gen.dense(Y)
     W = _interleave(A, q)
     tol = 1e-9 * max(1.0, np.abs(A).max())
-    if T.shape != W.shape or np.abs(T - W).max() > tol:
+    if T.shape != W.shape or not np.abs(T - W).max() <= tol:
         return FAIL(f'TT entries differ from A[i,j] at interleaved digits: max dev {np.abs(T - W).max():.3e}')
     B = teneva.full_matrix(Y)
-    if B.shape != A.shape or not np.array_equal(np.rint(B), A) or np.abs(B - A).max() > tol:
+    if B.shape != A.shape or not np.array_equal(np.rint(B), A) or not np.abs(B - A).max() <= tol:
         return FAIL(f'full_matrix(svd_matrix(A)) != A: {int(np.sum(np.rint(B) != A))} entries differ')
     return PASS
 
@@ -349,7 +349,7 @@ def _rank_selection(c, amb):
 def _best_approx(c, floor):
     err = float(np.linalg.norm(c.A - c.U @ c.V))
     best = tails(c.s)[min(c.q, len(c.s))]
-    if err > best * (1 + 1e-6) + floor * c.nrm:
+    if not err <= best * (1 + 1e-6) + floor * c.nrm:
         return FAIL(f'||A - U V|| = {err:.6e} > best rank-{c.q} error {best:.6e} (||A|| = {c.nrm:.3e})')
     if err < best * (1 - 1e-6) - floor * c.nrm:
         return FAIL(f'||A - U V|| = {err:.6e} below the optimum {best:.6e}: oracle inconsistent')
@@ -424,7 +424,7 @@ def msv_orth(m, n, seed, kind, scale, e, cap):
         return SKIP('smallest kept singular value below 1e-5 s_0')
     G = c.V @ c.V.T
     tol = 256 * EPS * (c.s[0] / sq) ** 2 * max(m, n)
-    if np.abs(G - np.eye(c.q)).max() > tol:
+    if not np.abs(G - np.eye(c.q)).max() <= tol:
         return FAIL(f'V V^T deviates from I by {np.abs(G - np.eye(c.q)).max():.3e} > {tol:.3e}')
     return PASS
 
